@@ -33,6 +33,7 @@ class Module:
         normalise_comparisons(self.tree)
         normalise_if_polarity(self.tree)
         from . import localnames, normalise
+        normalise.split_tuple_assign(self.tree)
         normalise.aug_assign(self.tree)
         normalise.fstrings_to_format(self.tree)
         normalise.empty_displays(self.tree)
